@@ -53,27 +53,47 @@ Theorem C36_oauth2_revocation_permanent : forall h k a oid o,
 Proof. exact run_o2_dead. Qed.
 
 (* ORPHANED OAUTH2 TOKENS. Whenever check_oauth2_account_uuid_valid accepts a token whose grace
-   window has passed, the token's OAuth2 session record is on the entry and live, and a parent
-   named by the token is a live login session of the account or one of its API tokens. Hence a
-   parent login session that is revoked or missing makes the token unusable after grace. *)
+   window has passed, the token's OAuth2 session record is on the entry and neither revoked nor past
+   its expiry at that time, and a parent named by the token is a login session of the account that
+   is neither revoked nor past its expiry, or one of its API tokens. Hence a parent login session
+   that is revoked, expired or missing makes the token unusable after grace. *)
 Theorem C36_oauth2_orphan : forall a oid parent iat ct,
   check a oid parent iat ct = true -> iat + GRACE <= ct ->
-  (exists o, lookup oid (a_o2s a) = Some o /\ live (o_state o) = true)
+  (exists o, lookup oid (a_o2s a) = Some o /\ live_at ct (o_state o) = true)
   /\ match parent with
-     | Some p => (exists u, lookup p (a_uats a) = Some u /\ live (u_state u) = true) \/ In p (a_apis a)
+     | Some p => (exists u, lookup p (a_uats a) = Some u /\ live_at ct (u_state u) = true) \/ In p (a_apis a)
      | None => True
      end.
 Proof. exact check_past_grace. Qed.
 
-(* A REVOKED parent login session rejects the token at every time once the OAuth2 session record
-   is on the entry; without that record only the grace window is left. *)
+(* At EVERY time, grace or not: if a token is accepted and its OAuth2 session record is on the entry,
+   the record is neither revoked nor expired, and a named parent that is recorded as a login session
+   is neither revoked nor expired. *)
+Theorem C36_accepted_token_sessions_live : forall a oid parent iat ct,
+  check a oid parent iat ct = true ->
+  forall o, lookup oid (a_o2s a) = Some o -> live_at ct (o_state o) = true
+    /\ forall p u, parent = Some p -> lookup p (a_uats a) = Some u -> live_at ct (u_state u) = true.
+Proof. exact check_accept_live. Qed.
+
+(* A REVOKED OR EXPIRED parent login session rejects the token at every time once the OAuth2 session
+   record is on the entry; without that record only the grace window is left. *)
+Theorem C36_dead_parent : forall a oid p u iat ct,
+  lookup p (a_uats a) = Some u -> live_at ct (u_state u) = false ->
+  check a oid (Some p) iat ct = true ->
+  lookup oid (a_o2s a) = None /\ ct < iat + GRACE.
+Proof. exact check_dead_parent. Qed.
+
 Theorem C36_revoked_parent : forall a oid p u iat ct,
   lookup p (a_uats a) = Some u -> live (u_state u) = false ->
   check a oid (Some p) iat ct = true ->
   lookup oid (a_o2s a) = None /\ ct < iat + GRACE.
 Proof. exact check_revoked_parent. Qed.
 
-(* A revoked OAuth2 session record rejects its tokens at every time, whatever the parent. *)
+(* A revoked or expired OAuth2 session record rejects its tokens at every time, whatever the parent. *)
+Theorem C36_dead_oauth2_session : forall a oid o parent iat ct,
+  lookup oid (a_o2s a) = Some o -> live_at ct (o_state o) = false -> check a oid parent iat ct = false.
+Proof. exact check_dead_o2. Qed.
+
 Theorem C36_revoked_oauth2_session : forall a oid o parent iat ct,
   lookup oid (a_o2s a) = Some o -> live (o_state o) = false -> check a oid parent iat ct = false.
 Proof. exact check_revoked_o2. Qed.
